@@ -40,6 +40,7 @@ CONSTANTS Modes,        \* subset of {"csv", "parquet"}
           PqTypes, PqTimeTypes, PqNulls, PqRanges,
           Families,     \* which families of files Init contains (see Init)
           PqFamCols,    \* columns per file in family pq_cols
+          PqGroups, PqBads, \* row groups per file ({1, 2}); bad value in the last row ({"none", "nulltime"})
           U64Check,     \* TRUE: the code as it is now (repo commit 4025fa4): a uint64 value above 2^63-1 refuses the
                         \* file. FALSE: the code as first written (plain int64() cast) -- negative control MC_pq_u64.cfg
           Emit
@@ -47,10 +48,11 @@ CONSTANTS Modes,        \* subset of {"csv", "parquet"}
 VARIABLES mode, cols, tfmt, tcls, tunit, bad, skip, tname, tpos, delim,   \* the uploaded file + options
           pq,                                                              \* parquet: [types, nulls, ttype, range]
           phase, c, i, isInt, isFloat, isBool, hasValue, hasEmpty,         \* the scan
-          types, outcome, stored
+          types, outcome, stored,
+          buffered                                                         \* rows sitting in the ArrowBuffer, not yet flushed
 
 vars == <<mode, cols, tfmt, tcls, tunit, bad, skip, tname, tpos, delim, pq,
-          phase, c, i, isInt, isFloat, isBool, hasValue, hasEmpty, types, outcome, stored>>
+          phase, c, i, isInt, isFloat, isBool, hasValue, hasEmpty, types, outcome, stored, buffered>>
 
 Units      == {"s", "ms", "us", "ns"}
 FmtUnit(f) == CASE f = "epoch_s" -> "s" [] f = "epoch_ms" -> "ms" [] f = "epoch_us" -> "us" [] f = "epoch_ns" -> "ns" [] OTHER -> "auto"
@@ -80,7 +82,7 @@ PqTimeSupported(t) == t \in {"ts_s", "ts_ms", "ts_us", "ts_ns", "int64", "int32"
 PqOverflows(t, range) == t = "uint64" /\ range = "top"
 
 \* One family of uploaded files: every set is a parameter
-InitWith(M, CC, TF, TC, DL, SK, TN, TP, BD, PT, PTT, PN, PR, PC) ==
+InitWith(M, CC, TF, TC, DL, SK, TN, TP, BD, PT, PTT, PN, PR, PC, PG, PB) ==
     /\ mode \in M
     /\ tfmt \in TF
     /\ IF mode = "csv"
@@ -90,15 +92,15 @@ InitWith(M, CC, TF, TC, DL, SK, TN, TP, BD, PT, PTT, PN, PR, PC) ==
                            ELSE IF tcls = "efrac" THEN (IF tfmt = "" THEN {"s"} ELSE {FmtUnit(tfmt)} \cap {"s", "ms"})
                            ELSE IF tfmt = "" THEN Units ELSE {FmtUnit(tfmt)}
               /\ bad \in BD /\ skip \in SK /\ tname \in TN /\ tpos \in TP /\ delim \in DL
-              /\ pq = [types |-> <<>>, nulls |-> FALSE, ttype |-> "none", range |-> "mid"]
+              /\ pq = [types |-> <<>>, nulls |-> FALSE, ttype |-> "none", range |-> "mid", groups |-> 1, bad |-> "none"]
          ELSE /\ cols = <<>> /\ tcls = "none" /\ bad = "none" /\ skip = 0 /\ tname \in TN /\ tpos \in TP /\ delim = ","
-              /\ pq \in [types : SeqsUpTo(PT, PC), nulls : PN, ttype : PTT, range : PR]
+              /\ pq \in [types : SeqsUpTo(PT, PC), nulls : PN, ttype : PTT, range : PR, groups : PG, bad : PB]
               /\ tunit \in IF pq.ttype \in {"ts_s", "ts_ms", "ts_us", "ts_ns", "string", "binary", "fsb"} THEN {"s"}
                            ELSE IF tfmt = "" THEN (IF pq.ttype \in {"int32", "int16", "uint32", "float32"} THEN {"s"} ELSE Units)
                            ELSE {FmtUnit(tfmt)}
     /\ phase = "time" /\ c = 1 /\ i = 1
     /\ isInt = TRUE /\ isFloat = TRUE /\ isBool = TRUE /\ hasValue = FALSE /\ hasEmpty = FALSE
-    /\ types = <<>> /\ outcome = "pending" /\ stored = 0
+    /\ types = <<>> /\ outcome = "pending" /\ stored = 0 /\ buffered = 0
 
 AllClasses == {"int", "b01", "float", "boolw", "str", "empty", "qd"}
 AllFmts    == {"", "epoch_s", "epoch_ms", "epoch_us", "epoch_ns"}
@@ -116,34 +118,38 @@ OneColUpTo(n) == UNION {[1..1 -> [1..nr -> AllClasses]] : nr \in 1..n}
 Init ==
     \/ "cfg" \in Families /\
           InitWith(Modes, ColChoices, TimeFmts, TimeClasses, Delims, Skips, TNames, TPos, Bads,
-                   PqTypes, PqTimeTypes, PqNulls, PqRanges, MaxCols)
+                   PqTypes, PqTimeTypes, PqNulls, PqRanges, MaxCols, PqGroups, PqBads)
     \/ "csv_cols" \in Families /\          \* every column of <= 3 cells, default options
-          InitWith({"csv"}, OneColUpTo(3), {""}, {"rfc"}, {","}, {0}, {"time"}, {"first"}, {"none"}, {}, {}, {}, {}, 1)
+          InitWith({"csv"}, OneColUpTo(3), {""}, {"rfc"}, {","}, {0}, {"time"}, {"first"}, {"none"}, {}, {}, {}, {}, 1, {1}, {"none"})
     \/ "csv_opts" \in Families /\          \* every option combination, two fixed columns
           InitWith({"csv"}, {DefaultCols}, AllFmts, AllTimes, Delims, Skips, {"time", "ts"}, {"first", "last"},
-                   {"none", "garbage", "empty"}, {}, {}, {}, {}, 1)
+                   {"none", "garbage", "empty"}, {}, {}, {}, {}, 1, {1}, {"none"})
     \/ "csv_wide" \in Families /\          \* three columns at once, non-default options (column order, renamed time column)
           InitWith({"csv"}, [1..3 -> WidePatterns], {"epoch_ns"}, {"eint"}, {";"}, {1}, {"ts"}, {"last"}, {"none"},
-                   {}, {}, {}, {}, 1)
+                   {}, {}, {}, {}, 1, {1}, {"none"})
     \/ "pq_cols" \in Families /\           \* every pair of parquet column types, with nulls, both value ranges
           InitWith({"parquet"}, {}, {""}, {}, {}, {}, {"time"}, {"first", "last"}, {},
-                   AllPq, {"ts_us"}, {TRUE}, {"mid", "top"}, PqFamCols)
+                   AllPq, {"ts_us"}, {TRUE}, {"mid", "top"}, PqFamCols, {1}, {"none"})
+    \/ "pq_groups" \in Families /\         \* one or two row groups; the LAST row (alone in the last group) may have a NULL time
+          InitWith({"parquet"}, {}, {""}, {}, {}, {}, {"time"}, {"first", "last"}, {},
+                   {"int64", "float64", "string", "uint64"}, {"ts_us", "int64", "string"}, {TRUE, FALSE}, {"mid"}, 1,
+                   {1, 2}, {"none", "nulltime"})
     \/ "pq_time" \in Families /\           \* every time column type x time_format x unit
           InitWith({"parquet"}, {}, AllFmts, {}, {}, {}, {"time", "ts"}, {"first", "last"}, {},
-                   {"int64"}, AllPqTime, {FALSE}, {"mid", "top"}, 1)
+                   {"int64"}, AllPqTime, {FALSE}, {"mid", "top"}, 1, {1}, {"none"})
 
 -----------------------------------------------------------------------------
 \* stringsToTimeMicros / oneTimeValueToMicros: does the whole time column convert?
 CsvTimeOK == /\ bad = "none"
              /\ (tcls \in TextTimes => tfmt = "")      \* an explicit epoch format refuses text
 
-Reject == /\ phase' = "done" /\ outcome' = "rejected" /\ stored' = 0
+Reject == /\ phase' = "done" /\ outcome' = "rejected" /\ stored' = 0 /\ buffered' = 0
           /\ UNCHANGED <<c, i, isInt, isFloat, isBool, hasValue, hasEmpty, types>>
 
 CsvTime == /\ mode = "csv" /\ phase = "time"
            /\ IF CsvTimeOK
                 THEN /\ phase' = "scan"
-                     /\ UNCHANGED <<c, i, isInt, isFloat, isBool, hasValue, hasEmpty, types, outcome, stored>>
+                     /\ UNCHANGED <<c, i, isInt, isFloat, isBool, hasValue, hasEmpty, types, outcome, stored, buffered>>
                 ELSE Reject
            /\ UNCHANGED <<mode, cols, tfmt, tcls, tunit, bad, skip, tname, tpos, delim, pq>>
 
@@ -165,12 +171,12 @@ CsvScan ==
                  /\ UNCHANGED hasEmpty
                  /\ IF ~ni /\ ~nf /\ ~nb THEN phase' = "decide" /\ i' = i        \* break
                                           ELSE phase' = phase /\ i' = i + 1
-    /\ UNCHANGED <<mode, cols, tfmt, tcls, tunit, bad, skip, tname, tpos, delim, pq, c, types, outcome, stored>>
+    /\ UNCHANGED <<mode, cols, tfmt, tcls, tunit, bad, skip, tname, tpos, delim, pq, c, types, outcome, stored, buffered>>
 
 CsvScanEnd == /\ mode = "csv" /\ phase = "scan" /\ i > Len(cols[c])
               /\ phase' = "decide"
               /\ UNCHANGED <<mode, cols, tfmt, tcls, tunit, bad, skip, tname, tpos, delim, pq,
-                             c, i, isInt, isFloat, isBool, hasValue, hasEmpty, types, outcome, stored>>
+                             c, i, isInt, isFloat, isBool, hasValue, hasEmpty, types, outcome, stored, buffered>>
 
 Decided == IF ~hasValue \/ (~isInt /\ ~isFloat /\ ~isBool) THEN "string"
            ELSE IF isInt THEN "int" ELSE IF isFloat THEN "float" ELSE "bool"
@@ -181,14 +187,16 @@ CsvDecide ==
     /\ IF c < Len(cols)
          THEN /\ c' = c + 1 /\ i' = 1 /\ phase' = "scan"
               /\ isInt' = TRUE /\ isFloat' = TRUE /\ isBool' = TRUE /\ hasValue' = FALSE /\ hasEmpty' = FALSE
-              /\ UNCHANGED <<outcome, stored>>
-         ELSE /\ phase' = "done" /\ outcome' = "stored" /\ stored' = NRows     \* WriteTypedColumnarDirect + FlushAll
+              /\ UNCHANGED <<outcome, stored, buffered>>
+         ELSE /\ phase' = "done" /\ outcome' = "stored" /\ stored' = NRows /\ buffered' = 0     \* WriteTypedColumnarDirect + FlushAll
               /\ UNCHANGED <<c, i, isInt, isFloat, isBool, hasValue, hasEmpty>>
     /\ UNCHANGED <<mode, cols, tfmt, tcls, tunit, bad, skip, tname, tpos, delim, pq>>
 
 -----------------------------------------------------------------------------
 \* parquet: the time column sits first or last in the file; columns are converted in file order
 PqTimeOK == /\ PqTimeSupported(pq.ttype)
+            /\ pq.bad = "none"          \* a NULL time value refuses the file, in whichever row group it sits: ReadTable reads
+                                       \* the whole file and every column is converted before anything is buffered
             /\ ~(U64Check /\ PqOverflows(pq.ttype, pq.range))                \* uint64 time value above 2^63-1 (4025fa4)
             /\ (pq.ttype \in {"string", "binary", "fsb"} => tfmt = "")     \* RFC3339 text under an explicit epoch format fails
 
@@ -198,20 +206,27 @@ PqStep ==
            atTime == (tpos = "first" /\ phase = "time") \/ (tpos = "last" /\ c > n)
        IN IF atTime
             THEN IF PqTimeOK
-                   THEN IF tpos = "first" THEN /\ phase' = "scan" /\ UNCHANGED <<c, types, outcome, stored>>
-                        ELSE /\ phase' = "done" /\ outcome' = "stored" /\ stored' = NRows /\ UNCHANGED <<c, types>>
-                   ELSE /\ phase' = "done" /\ outcome' = "rejected" /\ stored' = 0 /\ UNCHANGED <<c, types>>
+                   THEN IF tpos = "first" THEN /\ phase' = "scan" /\ UNCHANGED <<c, types, outcome, stored, buffered>>
+                        ELSE /\ phase' = "done" /\ outcome' = "stored" /\ stored' = NRows /\ buffered' = 0 /\ UNCHANGED <<c, types>>
+                   ELSE /\ phase' = "done" /\ outcome' = "rejected" /\ stored' = 0 /\ buffered' = 0 /\ UNCHANGED <<c, types>>
           ELSE IF c > n
-            THEN /\ phase' = "done" /\ outcome' = "stored" /\ stored' = NRows /\ UNCHANGED <<c, types>>
+            THEN /\ phase' = "done" /\ outcome' = "stored" /\ stored' = NRows /\ buffered' = 0 /\ UNCHANGED <<c, types>>
           ELSE IF PqStored(pq.types[c]) = "unsupported" \/ (U64Check /\ PqOverflows(pq.types[c], pq.range))
-            THEN /\ phase' = "done" /\ outcome' = "rejected" /\ stored' = 0 /\ UNCHANGED <<c, types>>
+            THEN /\ phase' = "done" /\ outcome' = "rejected" /\ stored' = 0 /\ buffered' = 0 /\ UNCHANGED <<c, types>>
           ELSE /\ types' = Append(types, PqStored(pq.types[c])) /\ c' = c + 1
-               /\ phase' = "scan" /\ UNCHANGED <<outcome, stored>>
+               /\ phase' = "scan" /\ UNCHANGED <<outcome, stored, buffered>>
     /\ UNCHANGED <<mode, cols, tfmt, tcls, tunit, bad, skip, tname, tpos, delim, pq, i, isInt, isFloat, isBool, hasValue, hasEmpty>>
 
-Done == phase = "done" /\ UNCHANGED vars
+\* whatever happens next on the server (another import, the periodic flush, shutdown) flushes the ArrowBuffer:
+\* rows a refused request left behind in it would be stored now
+FollowUp == /\ phase = "done" /\ phase' = "final"
+            /\ stored' = stored + buffered /\ buffered' = 0
+            /\ UNCHANGED <<mode, cols, tfmt, tcls, tunit, bad, skip, tname, tpos, delim, pq,
+                           c, i, isInt, isFloat, isBool, hasValue, hasEmpty, types, outcome>>
 
-Next == CsvTime \/ CsvScan \/ CsvScanEnd \/ CsvDecide \/ PqStep \/ Done
+Done == phase = "final" /\ UNCHANGED vars
+
+Next == CsvTime \/ CsvScan \/ CsvScanEnd \/ CsvDecide \/ PqStep \/ FollowUp \/ Done
 Spec == Init /\ [][Next]_vars
 
 -----------------------------------------------------------------------------
@@ -234,13 +249,13 @@ CsvNarrowest == (mode = "csv" /\ outcome = "stored") =>
                                   ELSE IF Fits("float", cols[cc]) THEN "float"
                                   ELSE IF Fits("bool", cols[cc]) THEN "bool" ELSE "string"
 
-AllOrNothing == /\ (outcome = "rejected" => stored = 0)
+AllOrNothing == /\ (outcome = "rejected" => stored = 0 /\ buffered = 0)
                 /\ (outcome = "stored" => stored = NRows /\ (mode = "csv" => Len(types) = Len(cols)))
 
 \* a file is refused only for a reason the statement allows: it cannot be imported completely
 RejectJustified == (outcome = "rejected") =>
                       IF mode = "csv" THEN ~CsvTimeOK
-                      ELSE \/ ~PqTimeOK
+                      ELSE \/ ~PqTimeOK        \* includes a NULL time value
                            \/ \E k \in 1..Len(pq.types) : PqStored(pq.types[k]) = "unsupported" \/ PqOverflows(pq.types[k], pq.range)
 
 \* every parquet value of an accepted file fits the stored type. Holds since arrowColumnToTyped refuses
@@ -251,7 +266,7 @@ PqLossless == (mode = "parquet" /\ outcome = "stored") =>
 
 Safety == CsvLossless /\ CsvNarrowest /\ AllOrNothing /\ RejectJustified /\ PqLossless
 
-EmitInv == (Emit /\ phase = "done") =>
+EmitInv == (Emit /\ phase = "final") =>
     PrintT(<<"TRACE", ToJson([mode |-> mode, cols |-> cols, tfmt |-> tfmt, tcls |-> tcls, tunit |-> tunit, bad |-> bad,
                               skip |-> skip, tname |-> tname, tpos |-> tpos, delim |-> delim, pq |-> pq,
                               types |-> types, outcome |-> outcome])>>)
